@@ -40,7 +40,7 @@ RULE = (
 ASSUMPTIONS = [
     "yield points are method boundaries (entry/exit), attached from the harness; interleavings inside a method body are only reached by the switch-interval stress",
 ]
-REQUIRED_MONITORS = ["sequential_answers", "scheduled_runs", "scheduled_answers", "stress_answers", "interleavings_2threads", "interleavings_3threads",
+REQUIRED_MONITORS = ["reentrant_answers", "sequential_answers", "scheduled_runs", "scheduled_answers", "stress_answers", "interleavings_2threads", "interleavings_3threads",
                      "kind:auto", "kind:auto_nocache", "kind:autohq", "kind:reusable_hyper", "kind:reusable_rg", "kind:preset"]
 SHARD_TIMEOUT = {"quick": 500, "thorough": 3600}
 
@@ -376,12 +376,69 @@ def entries_for(kind):
     return ["search", "call", "tree", "path"]
 
 
+# ------------------------------ re-entrant use ------------------------------- #
+# One thread, one optimizer object, a query made WHILE another query of the same object is being answered: the
+# library does this itself (partition based methods order their groups with the shared 'auto-hq' optimizer, which
+# may be the very object that is running them).  Here a registered trial method asks the object a nested question.
+
+_NEST = {"opt": None, "net": None, "depth": 0, "asked": 0}
+
+
+def _nested_method(inputs, output, size_dict, **kw):
+    if _NEST["opt"] is not None and _NEST["depth"] == 0:
+        _NEST["depth"] += 1
+        try:
+            n = _NEST["net"]
+            _NEST["opt"](n.inputs, n.output, n.size_dict)
+            _NEST["asked"] += 1
+        finally:
+            _NEST["depth"] -= 1
+    return _hyper._PATH_FNS["greedy"](inputs, output, size_dict)
+
+
+def run_reentrant(rep, case, tmpdir):
+    warnings.filterwarnings("ignore")
+    if "vf16-nested" not in _hyper._PATH_FNS:
+        _hyper.register_hyper_function("vf16-nested", _nested_method, {"k": {"type": "INT", "min": 0, "max": 9}})
+    nets = [gen.Net.from_json(j) for j in case["nets"]]
+    hk = dict(methods=["vf16-nested"], max_repeats=2, parallel=False, optlib="random", on_trial_error="raise")
+    if case["kind"] == "reusable_hyper_disk":
+        opt = ctg.ReusableHyperOptimizer(directory=tmpdir, **hk)
+    elif case["kind"].startswith("autohq"):
+        opt = _presets.AutoHQOptimizer(optimal_cutoff=0, cache=True, **hk)
+    else:
+        opt = ctg.ReusableHyperOptimizer(**hk)
+    try:
+        for step, (outer, inner, entry) in enumerate(case["pairs"]):
+            _NEST.update(opt=opt, net=nets[inner], depth=0)
+            try:
+                res = ask(opt, nets[outer], entry)
+            except Exception as e:
+                return ("raises", f"re-entrant step {step}: outer query {outer} (nested {inner}) via {entry}: {type(e).__name__}: {e} | {traceback.format_exc()[-300:]}")
+            finally:
+                _NEST.update(opt=None)
+            rep.mon("reentrant_answers")
+            msg = answer_ok(nets[outer], res)
+            if msg:
+                return ("wrong_answer", f"re-entrant step {step}: outer query {outer} (N={nets[outer].N}) via {entry}, which asked the same object about query {inner} (N={nets[inner].N}) while it ran: {msg}")
+            # the nested question itself, asked again afterwards
+            res2 = ask(opt, nets[inner], "search")
+            msg = answer_ok(nets[inner], res2)
+            if msg:
+                return ("wrong_answer", f"re-entrant step {step}: nested query {inner} asked again afterwards: {msg}")
+    finally:
+        _NEST.update(opt=None, depth=0)
+    return None
+
+
 def execute(rep, case):
     import shutil
     import tempfile
 
     tmp = tempfile.mkdtemp(prefix="vf-c16-", dir="/var/tmp")
     try:
+        if case["mode"] == "reentrant":
+            return run_reentrant(rep, case, tmp)
         if case["mode"] == "sequential":
             return run_sequential(rep, case, tmp)
         if case["mode"] == "scheduled":
@@ -405,7 +462,15 @@ def run_shard(rep, tier, seed, shard, nshards):
         nets = make_queries(rng, rng.randint(3, 4), big=kind.startswith("preset:"))
         case = {"mode": mode, "kind": kind, "nets": [n.to_json() for n in nets], "case_seed": cs}
         ents = entries_for(kind)
-        if mode == "sequential":
+        if mode == "sequential" and kind in ("reusable_hyper", "reusable_hyper_disk", "autohq") and rng.random() < 0.35:
+            mode = case["mode"] = "reentrant"
+            pairs = []
+            for _ in range(rng.randint(2, 4)):
+                a, b = rng.sample(range(len(nets)), 2)
+                pairs.append((a, b, rng.choice(["search", "tree", "call", "path"])))
+            case["pairs"] = pairs
+            key = (kind, "reentrant", tuple(pairs), tuple(n.N for n in nets))
+        elif mode == "sequential":
             perm = list(range(len(nets)))
             rng.shuffle(perm)
             order = perm + [rng.randrange(len(nets)) for _ in range(rng.randint(2, 6))]
